@@ -219,7 +219,17 @@ class Check:
                     ops = narrow_io(r, body)
                     full = w.run("exec", exec_kv, ops)
 
+                refw = None
+                if self.spec.get("reference_config"):
+                    # the expectation is the log of the same ops on the reference build: recomputed for every candidate
+                    refw = Worker(C.build_engine(eng, self.spec["reference_config"]))
+
                 def execute(cand):
+                    if refw:
+                        ref = refw.run("exec", {k: v for k, v in exec_kv.items() if k != "expect"}, cand)
+                        if ref.status != "OK":
+                            return ref
+                        exec_kv["expect"] = ref.kv.get("hash")
                     return w.run("exec", exec_kv, cand)
                 if ops and eng != "io" and self.spec.get("minimise", True):
                     first = execute(ops)
@@ -254,6 +264,8 @@ class Check:
                 self.violations.append((cls, path, msg))
             finally:
                 w.close()
+                if 'refw' in locals() and refw:
+                    refw.close()
 
     def canaries(self):
         """Open known findings: replay the canary, name the finding if it still reproduces.
@@ -388,6 +400,14 @@ def replay_file(path, quiet=False, exes=None, prop=None):
             kv.update(part_kv)
         kv.update(chk.extra_kv())
         kv.update(rp.get("exec_extra") or {})
+        if spec.get("reference_config") and "expect" in kv:
+            refw = Worker(C.build_engine(eng, spec["reference_config"]))
+            try:
+                ref = refw.run("exec", {k: v for k, v in kv.items() if k != "expect"}, rp["ops"])
+            finally:
+                refw.close()
+            if ref.status == "OK":
+                kv["expect"] = ref.kv.get("hash")
         r = w.run("exec", kv, rp["ops"])
         r.kv["config"] = cfg
         r.kv["engine"] = eng
